@@ -116,7 +116,7 @@ fn main() {
             // development aid: regenerate refdata/expr_wiring.json from the reviewed grammar
             std::env::remove_var("VERIF_DIR");
             match tables::load_grammar(&repo) {
-                Ok(g) => println!("{}", serde_json::to_string(&rules::grammar_rules::expr_wiring_of(&g).into_iter().map(|(a, b, c, d)| serde_json::json!([a, b, c, d])).collect::<Vec<_>>()).unwrap()),
+                Ok(g) => println!("{}", serde_json::to_string(&rules::grammar_rules::expr_wiring_of(&g).into_iter().map(|(a, b, c, d, e)| serde_json::json!([a, b, c, d, e])).collect::<Vec<_>>()).unwrap()),
                 Err(e) => {
                     eprintln!("{}", e);
                     std::process::exit(1)
